@@ -16,6 +16,22 @@ for l in p.stdout.splitlines():
     if e.get("Action") == "pass" and e.get("Test"):
         passed.add("%s::%s" % (e["Package"], e["Test"]))
 missing = sorted(want - passed)
+# a few pinned tests are timing sensitive on a loaded machine: re-run the missing ones alone, up to 3 times
+for attempt in range(3):
+    if not missing:
+        break
+    for m in list(missing):
+        pkg, test = m.split("::")
+        top = test.split("/")[0]
+        q = subprocess.run(["go", "test", "-json", "-vet=off", "-count=1", "-run", "^%s$" % top, pkg], cwd=repo, env=env, capture_output=True, text=True)
+        for l in q.stdout.splitlines():
+            try:
+                e = json.loads(l)
+            except Exception:
+                continue
+            if e.get("Action") == "pass" and e.get("Test"):
+                passed.add("%s::%s" % (e["Package"], e["Test"]))
+    missing = sorted(want - passed)
 print("stable_pass: %d, passing now: %d of them, missing: %d" % (len(want), len(want & passed), len(missing)))
 for m in missing:
     print("  MISSING", m)
